@@ -8,6 +8,7 @@ import (
 
 	"verif/harness/core"
 	"verif/harness/model"
+	"verif/harness/ref"
 	"verif/harness/value"
 )
 
@@ -65,7 +66,22 @@ func TestMakeReplays(t *testing.T) {
 	}
 }
 
-var extraReplays = []func(t *testing.T){makeC02Replays, makeC08Replays, makeC04Replays}
+var extraReplays = []func(t *testing.T){makeC02Replays, makeC08Replays, makeC04Replays, makeC07Replays}
+
+func makeC07Replays(t *testing.T) {
+	n := 130
+	c := C07Case{Shape: make([]bool, n), Counts: make([]int, n)}
+	for i := 0; i < n; i++ {
+		c.CppR = append(c.CppR, ref.Op{Kind: "R", Step: i})
+		c.CppW = append(c.CppW, ref.Op{Kind: "W", Step: i})
+		c.PyR = append(c.PyR, ref.Op{Kind: "R", Step: i})
+		c.PyW = append(c.PyW, ref.Op{Kind: "W", Step: i})
+	}
+	for _, l := range []*[]ref.Op{&c.CppR, &c.CppW, &c.PyR, &c.PyW} {
+		*l = append(*l, ref.Op{Kind: "C"})
+	}
+	writeReplay(t, "C07", "cpp-state-overflow", "c07", "legal sequence over 130 steps rejected by the C++ reader", c)
+}
 
 func makeC04Replays(t *testing.T) {
 	mk := func(kind model.DefKind) *model.Package {
